@@ -5,7 +5,7 @@
     tool's integers (units of 1e-10).  [0 < gres g] is the only hypothesis: FromTileMatrixSet
     yields a positive resolution for every tile matrix set whose extent spans at least 2^deepest units
     (otherwise the Go code divides by zero, which the model reports as [Err DivZero]). *)
-From Coq Require Import ZArith List Bool.
+From Coq Require Import ZArith List Bool Lia.
 From Texel Require Import Prelude.Base Index.Model Index.ProofsInsert Index.ProofsGen Snap.Model Snap.ProofsOutside.
 From Texel.Gen Require Import PointIndexGen.
 Import ListNotations.
@@ -50,6 +50,24 @@ Theorem C09_source_tie :
   (forall g x y, gen_InsertCoord_outside (ix_of g) x y = negb (inGridCoord g (x, y))).
 Proof. split; [exact gen_InsertPoint_coord_spec | exact gen_InsertCoord_outside_spec]. Qed.
 Print Assumptions C09_source_tie.
+
+(** ... and the resolution FromTileMatrixSet derives (REGENERATED from source) is the x span divided by the pixel
+    count rounded DOWN, so the accepted region min + 2^d * res never reaches beyond the extent of the tile
+    matrix set: a vertex on or beyond its right border is outside ([insideGrid]) on any such grid *)
+Theorem C09_source_tie_resolution : forall e d, eminx e <= emaxx e ->
+  gen_deepestRes (ext_tuple e) (pow2 d) = (emaxx e - eminx e) / pow2 d.
+Proof. exact gen_deepestRes_spec. Qed.
+Print Assumptions C09_source_tie_resolution.
+
+Theorem C09_accepted_region_within_extent : forall e d p, eminx e <= emaxx e ->
+  let g := mkGrid e ((emaxx e - eminx e) / pow2 d) d in
+  insideGrid g p -> fst p < emaxx e.
+Proof.
+  intros e d p He g [[_ Hx] _]. unfold g, gsize in Hx. cbn [gext gres gdeep] in Hx.
+  assert (Hp : 0 < pow2 d) by (unfold pow2; apply Z.pow_pos_nonneg; lia).
+  pose proof (Z.mul_div_le (emaxx e - eminx e) (pow2 d) Hp). lia.
+Qed.
+Print Assumptions C09_accepted_region_within_extent.
 
 (** non-vacuity / regression of F2: grid 32x32 px of 0.5 at the origin; a vertex 0.2 left of the
     border (less than one pixel outside) is rejected, a vertex exactly on the left border is accepted,
